@@ -15,6 +15,7 @@ import (
 	"syscall"
 	"testing"
 	"time"
+	"unsafe"
 
 	"github.com/mutagen-io/mutagen/pkg/agent/transport"
 
@@ -39,6 +40,10 @@ type agentProgram struct {
 	DieDelayMs int
 	// ExitCode: the status of a voluntary exit (0 = clean exit: Wait yields a nil error).
 	ExitCode int
+	// IgnoreStdin: the agent never reads its standard input (a hung agent / wedged transport):
+	// whatever is written to the stream piles up in the pipe. Only meaningful for modes that do
+	// not wait for input closure ("term", "never").
+	IgnoreStdin bool
 }
 
 // agentSafetyLifetime bounds the life of agents and grandchildren if the parent
@@ -78,12 +83,16 @@ func agentChild() {
 		time.Sleep(delay)
 		os.Exit(prog.ExitCode)
 	case "term":
-		go io.Copy(io.Discard, os.Stdin)
+		if !prog.IgnoreStdin {
+			go io.Copy(io.Discard, os.Stdin)
+		}
 		<-term
 		time.Sleep(delay)
 		os.Exit(prog.ExitCode)
 	default:
-		go io.Copy(io.Discard, os.Stdin)
+		if !prog.IgnoreStdin {
+			go io.Copy(io.Discard, os.Stdin)
+		}
 		select {}
 	}
 }
@@ -105,6 +114,9 @@ type c35case struct {
 	TerminationDelayMs int  // Stream.SetTerminationDelay
 	ErrorReceiver      bool // NewStream with a standard error receiver (as agent.Dial does)
 	PendingRead        bool // a Read on the stream is blocked while Close runs
+	// BlockedWrite: another goroutine is inside Stream.Write, blocked on the FULL standard
+	// input pipe of an agent that never reads (Program.IgnoreStdin), when Close is called.
+	BlockedWrite bool
 }
 
 func (c c35case) key() string { return vr.J(c) }
@@ -115,6 +127,10 @@ type c35obs struct {
 	CloseErr   string `json:"close_err,omitempty"`
 	After      string `json:"agent_after_close"` // gone / zombie / alive:<state>
 	Waited     bool   `json:"cmd_process_state_set"`
+	PipeFull   int    `json:"stdin_pipe_bytes_pending,omitempty"`
+	WriteEnded bool   `json:"blocked_write_returned,omitempty"`
+	WriteErr   string `json:"blocked_write_err,omitempty"`
+	WriteN     int    `json:"blocked_write_n,omitempty"`
 }
 
 type syncBuffer struct {
@@ -144,6 +160,7 @@ func c35Watchdog() time.Duration {
 // stream and observes. violation is "" when the property held.
 func runC35(c c35case) (obs c35obs, violation string, err error) {
 	watchdog := c35Watchdog()
+	started := time.Now()
 	cmd := childCommand("agent", c.Program)
 	// Exactly how mutagen's transports start agent processes.
 	cmd.SysProcAttr = transport.ProcessAttributes()
@@ -226,6 +243,14 @@ func runC35(c c35case) (obs c35obs, violation string, err error) {
 	}
 	gpid, _ = strconv.Atoi(f[2])
 	obs.Ready = true
+	// The deadline for "Close returns" is scaled to the load of the machine: the documented
+	// bound of Close is termination delay + 1 s + 1 s + kill; the watchdog is far above it and
+	// additionally grows with how long this agent took to start (a loaded machine).
+	if extra := 5 * time.Since(started); extra < 2*time.Minute {
+		watchdog += extra
+	} else {
+		watchdog += 2 * time.Minute
+	}
 	id, ok := identify(agentPid)
 	if !ok {
 		return obs, "", &infraError{"cannot identify the agent process"}
@@ -252,6 +277,32 @@ func runC35(c c35case) (obs c35obs, violation string, err error) {
 		time.Sleep(20 * time.Millisecond)
 	}
 
+	type writeResult struct {
+		n   int
+		err error
+	}
+	var writeDone chan writeResult
+	if c.BlockedWrite {
+		// One Write of 1 MiB to an agent that never reads: the pipe (64 KiB by default) fills up
+		// and the call stays in flight. Sequencing (not an oracle): Close is called once the
+		// pipe is observed full, i.e. the writer cannot make progress any more.
+		writeDone = make(chan writeResult, 1)
+		go func() {
+			n, werr := stream.Write(make([]byte, 1<<20))
+			writeDone <- writeResult{n, werr}
+		}()
+		pending, perr := waitPipeFull(agentPid, agentReadyWatchdog)
+		if perr != nil {
+			return obs, "", &infraError{"blocked-write setup: " + perr.Error()}
+		}
+		obs.PipeFull = pending
+		select {
+		case wr := <-writeDone:
+			return obs, "", &infraError{fmt.Sprintf("the 1 MiB write to a non-reading agent returned early (%d, %v)", wr.n, wr.err)}
+		default:
+		}
+	}
+
 	closed := make(chan error, 1)
 	go func() { closed <- stream.Close() }()
 	select {
@@ -276,7 +327,52 @@ func runC35(c c35case) (obs c35obs, violation string, err error) {
 	if strings.HasPrefix(obs.After, "alive") {
 		return obs, "Close returned but the agent process is still running (" + obs.After + ")", nil
 	}
+	if c.BlockedWrite {
+		// Stream: "It guarantees that its Close method unblocks pending Read and Write calls."
+		// The agent is gone, so the write cannot have completed: it must return with an error.
+		select {
+		case wr := <-writeDone:
+			obs.WriteEnded, obs.WriteN = true, wr.n
+			if wr.err != nil {
+				obs.WriteErr = wr.err.Error()
+			} else {
+				return obs, fmt.Sprintf("the Write that was blocked when Close was called returned success (%d bytes) although the agent never read and is gone", wr.n), nil
+			}
+		case <-time.After(watchdog):
+			return obs, fmt.Sprintf("Close returned but the Write blocked on the agent's full input pipe was not unblocked within %v", watchdog), nil
+		}
+	}
 	return obs, "", nil
+}
+
+// waitPipeFull waits until the standard input pipe of process pid holds as many unread
+// bytes as it can (FIONREAD == F_GETPIPE_SZ on the read end, reached through /proc) and
+// returns that number. The extra descriptor is closed before returning.
+func waitPipeFull(pid int, limit time.Duration) (int, error) {
+	fd, err := syscall.Open(fmt.Sprintf("/proc/%d/fd/0", pid), syscall.O_RDONLY|syscall.O_NONBLOCK, 0)
+	if err != nil {
+		return 0, err
+	}
+	defer syscall.Close(fd)
+	const fGetPipeSize = 1032 // F_GETPIPE_SZ
+	capacity, _, e := syscall.Syscall(syscall.SYS_FCNTL, uintptr(fd), fGetPipeSize, 0)
+	if e != 0 {
+		return 0, e
+	}
+	deadline := time.Now().Add(limit)
+	for {
+		var pending int32
+		if _, _, e := syscall.Syscall(syscall.SYS_IOCTL, uintptr(fd), syscall.TIOCINQ, uintptr(unsafe.Pointer(&pending))); e != 0 {
+			return 0, e
+		}
+		if int(pending) >= int(capacity) {
+			return int(pending), nil
+		}
+		if time.Now().After(deadline) {
+			return int(pending), fmt.Errorf("pipe holds %d of %d bytes after %v", pending, capacity, limit)
+		}
+		time.Sleep(2 * time.Millisecond)
+	}
 }
 
 func becomeSubreaper() error {
@@ -340,7 +436,13 @@ func TestC35(t *testing.T) {
 					for _, td := range termDelays {
 						for _, er := range []bool{false, true} {
 							for _, pr := range pendingReads {
-								cases = append(cases, c35case{agentProgram{mode, g, dd, code}, td, er, pr})
+								cases = append(cases, c35case{agentProgram{mode, g, dd, code, false}, td, er, pr, false})
+								// A Write blocked on the full input pipe of an agent that never reads, crossed
+								// with every behaviour that can coexist with it (the agent must not be waiting
+								// for input closure) and the other dimensions.
+								if (mode == "term" || mode == "never") && dd <= 300 {
+									cases = append(cases, c35case{agentProgram{mode, g, dd, code, true}, td, er, pr, true})
+								}
 							}
 						}
 					}
@@ -349,7 +451,7 @@ func TestC35(t *testing.T) {
 		}
 	}
 	r.Rule(fmt.Sprintf("every fake agent program: termination behaviour %v x status of its voluntary exit %v x grandchild keeping stdout/stderr open {no,yes} x dawdling before exit %v ms, behind a real transport.Stream with termination delay %v ms, "+
-		"stderr receiver {nil,buffer}, pending Read %v; all combinations, each one real process tree. Non-trivial = the agent was alive and ready when Close was called or exited on its own under a non-zero "+
+		"stderr receiver {nil,buffer}, pending Read %v, plus (for the SIGTERM-only and ignore-everything agents, which then never read their input) a concurrent 1 MiB Write blocked on the full stdin pipe at the moment Close is called; all combinations, each one real process tree. Non-trivial = the agent was alive and ready when Close was called or exited on its own under a non-zero "+
 		"termination delay (i.e. every executed case); distinct by the combination", modes, exitCodes, dieDelays, termDelays, pendingReads))
 	r.Assume("real time and real OS scheduling: the behaviour alphabet is enumerated completely, the interleaving of agent and Close is whatever the OS produces",
 		fmt.Sprintf("'always returns' is judged with a %v watchdog; nothing else about latency is asserted", c35Watchdog()),
@@ -394,14 +496,38 @@ func TestC35(t *testing.T) {
 		} else {
 			class += " wait-error=nil"
 		}
+		if cases[i].BlockedWrite {
+			switch {
+			case !res.obs.WriteEnded:
+				class += " blocked-write=still-blocked"
+			case strings.Contains(res.obs.WriteErr, "closed"):
+				class += " blocked-write=error:closed"
+			case strings.Contains(res.obs.WriteErr, "broken pipe"):
+				class += " blocked-write=error:EPIPE"
+			default:
+				class += " blocked-write=error:other"
+			}
+		}
 		r.Outcome(class)
 		if res.what != "" {
 			violating = append(violating, i)
 		}
 	}
-	// Confirm each violation 5/5 (vr calls rerun five times): the five re-executions of one
-	// case run concurrently on first demand, and the cases are confirmed concurrently too,
-	// so that a hanging Close costs two watchdog periods in total, not ten per case.
+	// Confirm violations 5/5 (vr calls rerun five times): the five re-executions of one case
+	// run concurrently on first demand and the cases are confirmed concurrently too, all
+	// through the same bound on simultaneous process trees as the first pass (an unbounded
+	// burst starves the agents and the machine). At most maxConfirmed violating cases, spread
+	// evenly over the violating list, are confirmed and reported; the others are only counted.
+	const maxConfirmed = 24
+	r.Set("violating_cases_first_pass", int64(len(violating)))
+	if len(violating) > maxConfirmed {
+		var picked []int
+		for k := 0; k < maxConfirmed; k++ {
+			picked = append(picked, violating[k*len(violating)/maxConfirmed])
+		}
+		r.Set("violating_cases_not_confirmed", int64(len(violating)-len(picked)))
+		violating = picked
+	}
 	var vwg sync.WaitGroup
 	for _, i := range violating {
 		vwg.Add(1)
@@ -418,6 +544,8 @@ func TestC35(t *testing.T) {
 						g.Add(1)
 						go func(k int) {
 							defer g.Done()
+							sem <- struct{}{}
+							defer func() { <-sem }()
 							_, w, e := runC35(c)
 							again[k] = e == nil && w != ""
 						}(k)
